@@ -105,7 +105,7 @@ RULE = ("per element configuration (the 10 elements with several constructor set
         "it does not select: numbers, strings, None, floats, tuples, lists, bytes, bare dicts, foreign objects, pairs "
         "with unrelated context, pairs with disabling context such as output.write/to_csv False, histograms of the "
         "wrong kind) are drawn from fixed palettes with ctx.rng; (1) every palette value once with a value of the "
-        "other kind, both orders; (2) for drawn (A, B) with |A|,|B| <= 3 (1-2 draws per size pair in quick, 30 in "
+        "other kind, both orders; (2) for drawn (A, B) with |A|,|B| <= 3 (1-2 draws per size pair in quick, 14 in "
         "thorough) ALL interleaving patterns are enumerated (exhaustive up to 3+3); (3) thorough adds random "
         "patterns with |A|,|B| <= 6.  Quick keeps a cross of the 54 RunIf selector x inner-sequence settings. "
         "Non-trivial: at least one value of A and one of B in the flow.")
@@ -1080,6 +1080,17 @@ def compare(case, res, replies):
 # the property itself, on the real code
 
 def oracle(case, res):
+    try:
+        return _oracle(case, res)
+    finally:
+        # the full-detail encodings are needed by the oracle only: drop them before the result travels to the main
+        # process (memory: ~100 k cases in the thorough tier)
+        for run in ("full", "a"):
+            for k in ("deep_blocks", "deep_tail", "produced"):
+                res[run].pop(k, None)
+
+
+def _oracle(case, res):
     el, pat = case["el"], case["pat"]
     full, a = res["full"], res["a"]
     is_pdf = el["k"] == "pdf"
@@ -1627,7 +1638,7 @@ def gen_cases(ctx):
     rng = ctx.rng
     cases = []
     quick = ctx.tier == "quick"
-    draws = 2 if quick else 30
+    draws = 2 if quick else 14
     sizes = [(a, b) for a in range(4) for b in range(4)]
     configs = _configs(ctx.tier)
     if quick:
@@ -1669,7 +1680,7 @@ def gen_cases(ctx):
                     cases.append(_mk_case(el, fs, A, B, pat, rng))
         # 3. longer flows, random interleavings
         if not quick and not real:
-            for _ in range(60):
+            for _ in range(30):
                 ids = _Ids()
                 na, nb = rng.randint(1, 6), rng.randint(1, 6)
                 A = _draw(rng, mk_a(ids, rng), na)
